@@ -262,6 +262,11 @@ class ExprMixin:
             return VI(-self.as_int(a))
         if isinstance(e.op, ast.UAdd):
             return a
+        if isinstance(e.op, ast.Invert):
+            if a.k == 'opq':
+                return SV('opq', self.ufunc('finvert', OPQ, OPQ)(a.t), a.x)        # ~mask of an external array
+            if a.k in ('int', 'bool'):
+                return VI(-self.as_int(a) - 1)
         raise Unsupported('unary op')
 
     def ev_BoolOp(self, e):
@@ -528,6 +533,9 @@ class ExprMixin:
                 return z3.BoolVal(key_of(x) in h.d)
             except Unsupported:
                 return z3.Or(*[self.equal(x, self.unkey(k)) for k in h.d]) if h.d else z3.BoolVal(False)
+        if c.k == 'opq':
+            # membership in an external container (tuple of field names ...): an uninterpreted predicate of container and element
+            return self.ufunc('opq_contains', OPQ, OPQ, BOOL)(c.t, self.as_opq(x))
         if c.k in ('str', 'bytes') or self._cseq(c):
             if c.k == 'const' and x.k == 'const':
                 return z3.BoolVal(x.t in c.t)
